@@ -634,3 +634,73 @@ def _desc(ann):
     if m:
         return [_desc(m.group(1))] * int(m.group(2))
     raise ValueError(ann)
+
+
+# ---------------------------------------------------------------- Qfixed / Qchar programs
+FIXED_TYPES = [(1, 2), (1, 3), (2, 2), (2, 3), (1, 4), (2, 4), (3, 3)]
+
+
+def fixed_char_programs(rng, n):
+    """same-type fixed-point arithmetic/comparisons with representable constants, character comparisons, ord()"""
+    out = []
+    for k in range(n):
+        if k % 3 != 2:
+            i, f = rng.choice(FIXED_TYPES)
+            t = f"Qfixed{i}_{f}"
+            ann = f"Qfixed[{i}, {f}]"
+            two = rng.random() < 0.6 and 2 * (i + f) <= 10
+
+            def const():
+                v = rng.randrange(1 << (i + f)) / (1 << f)
+                return f"Qfixed{i}_{f}({v!r})"
+
+            def term(d):
+                r = rng.random()
+                if d <= 0 or r < 0.35:
+                    return rng.choice(["a", "b"] if two else ["a"]) if rng.random() < 0.8 else const()
+                if r < 0.6:
+                    return f"({term(d - 1)} + {term(d - 1)})"
+                if r < 0.8:
+                    return f"({term(d - 1)} - {term(d - 1)})"
+                if r < 0.9:
+                    return f"({term(d - 1)} * {rng.choice([0, 1, 2, 3])})"
+                return f"({term(d - 1)} if {cond(d - 1)} else {term(d - 1)})"
+
+            def cond(d):
+                return f"({term(max(0, d))} {rng.choice(CMP)} {term(max(0, d))})"
+
+            args = [["a", t]] + ([["b", t]] if two else [])
+            extra = rng.random() < 0.3
+            if extra:
+                args.append(["c", "bool"])
+            sig = ", ".join(f"{nm}: {ann if tt == t else 'bool'}" for nm, tt in args)
+            body = []
+            if rng.random() < 0.3:
+                body.append(f"    v = {term(1)}")
+            if rng.random() < 0.5:
+                ret, e = "bool", cond(1) if not extra else f"({cond(1)} {rng.choice(['and', 'or', '^'])} c)"
+                rann = "bool"
+            else:
+                ret, e, rann = t, term(2), ann
+            if body:
+                e = e.replace("a", "v", 1) if rng.random() < 0.5 and e.startswith("a") else e
+            src = f"def f({sig}) -> {rann}:\n" + "".join(b + "\n" for b in body) + f"    return {e}\n"
+            out.append({"src": src, "args": args, "ret": ret, "feat": ["fixed:" + t]})
+        else:
+            two = rng.random() < 0.4
+            lit = lambda: repr(chr(rng.choice([97, 98, 122, 65, 48, 32, 126, 1, 3, 255 if False else 200])))  # noqa: E731
+            forms = [f"(a == {lit()})", f"(a != {lit()})", f"(ord(a) == {rng.choice([0, 1, 3, 97, 100, 200, 255])})", f"(ord(a) != {rng.choice([2, 97, 128])})"]
+            if two:
+                forms += ["(a == b)", "(a != b)", f"((a == {lit()}) or (b == {lit()}))"]
+            args = [["a", "Qchar"]] + ([["b", "Qchar"]] if two else [])
+            sig = ", ".join(f"{nm}: Qchar" for nm, _ in args)
+            r = rng.random()
+            if r < 0.6:
+                ret, e = "bool", rng.choice(forms) if rng.random() < 0.6 else f"({rng.choice(forms)} {rng.choice(['and', 'or', '^'])} {rng.choice(forms)})"
+            elif r < 0.8:
+                ret, e = "Qchar", rng.choice(["a", lit(), f"(a if {rng.choice(forms)} else {lit()})"] + (["(a if (a == b) else b)"] if two else []))
+            else:
+                ret, e = ["Qchar", "bool"], f"(a, {rng.choice(forms)})"
+            src = f"def f({sig}) -> {codec.annotation(ret)}:\n    return {e}\n"
+            out.append({"src": src, "args": args, "ret": ret, "feat": ["char"]})
+    return out
